@@ -43,6 +43,14 @@ func main() {
 		}
 		genXHeap(xp.prof)(newR(*seed^0x78686561), nx, *tier, out)
 	}
+	if prop == "C04" {
+		// exhaustive over a 12-symbol structural alphabet: bodies up to length 3 (quick: 4 x 1885 inputs) or 4 (thorough: 4 x 22621)
+		if thorough {
+			genExhaustiveParser(4, out)
+		} else {
+			genExhaustiveParser(3, out)
+		}
+	}
 	out.close()
 }
 
